@@ -132,10 +132,19 @@ pub fn observe_list(module: &mut Module, kind: &str) -> Vec<ChildObs> {
 
 /// the `/begin KIND name` sequence of the module-level children (and comments) in written text.
 /// Only depth-1 children of MODULE are reported. Comments are reported as ("#", text).
+/// index of the MODULE that the placement histories work on (1 when a decoy MODULE stands in front)
+pub static MODULE_INDEX: std::sync::atomic::AtomicUsize = std::sync::atomic::AtomicUsize::new(0);
+pub fn mi() -> usize {
+    MODULE_INDEX.load(std::sync::atomic::Ordering::Relaxed)
+}
+
+/// the direct children of the MODULE number mi() in written order
 pub fn written_children(text: &str) -> Vec<(String, String)> {
     let mut out = Vec::new();
     let mut depth = 0i32; // depth inside MODULE
     let mut in_module = false;
+    let mut skip_module = false;
+    let mut nmodule = 0;
     let toks = simple_tokens(text);
     let mut i = 0;
     while i < toks.len() {
@@ -144,12 +153,14 @@ pub fn written_children(text: &str) -> Vec<(String, String)> {
             let tag = toks.get(i + 1).cloned().unwrap_or_default();
             if tag == "MODULE" && !in_module {
                 in_module = true;
+                skip_module = nmodule != mi();
+                nmodule += 1;
                 depth = 0;
                 i += 2;
                 continue;
             }
             if in_module {
-                if depth == 0 {
+                if depth == 0 && !skip_module {
                     let name = toks.get(i + 2).cloned().unwrap_or_default();
                     out.push((tag, name));
                 }
@@ -169,7 +180,7 @@ pub fn written_children(text: &str) -> Vec<(String, String)> {
             i += 2;
             continue;
         }
-        if in_module && depth == 0 && (t.starts_with("/*") || t.starts_with("//")) {
+        if in_module && !skip_module && depth == 0 && (t.starts_with("/*") || t.starts_with("//")) {
             out.push(("#".to_string(), t.clone()));
         }
         i += 1;
